@@ -168,6 +168,9 @@ func (h *NFSProcedureHandler) handleCreate(body io.Reader, reply *RPCReply, auth
 		}
 		reply.Data = buf.Bytes()
 		return reply, nil
+	} else if !os.IsNotExist(lerr) {
+		// The name may exist: creating now could truncate it or bypass GUARDED/EXCLUSIVE
+		return nfsErrorWithWcc(reply, mapError(lerr)), nil
 	}
 
 	newNode, err := h.server.handler.Create(node, name, attrs)
